@@ -250,7 +250,7 @@ fn fm_leg(ctx: &Ctx, rep: &mut Report) {
 
 /// Concurrent construction on 2..16 threads gives identical encodings
 fn threads_leg(ctx: &Ctx, rep: &mut Report) {
-    let rounds = if ctx.thorough() { 24 } else { 4 };
+    let rounds = if ctx.thorough() { 200 } else { 4 };
     for r in 0..rounds {
         let id = 2000 + r;
         if !ctx.mine(id) {
